@@ -125,6 +125,12 @@ func handleOracle(r *Result, ops, impl []string, prop string) {
 		case "alloc":
 			p := string(unhx(f[2]))
 			h, _ := strconv.ParseUint(impl[i], 10, 64)
+			// values evicted inside this very call are no longer live (a batch is only dumped at its end)
+			for _, id := range aux[i].gone {
+				if id != h {
+					delete(live, id)
+				}
+			}
 			// one per path
 			for h0, p0 := range live {
 				if p0 == p && h0 != h && prop == "C05" {
